@@ -130,7 +130,7 @@ EXPORT errno_t _wctomb_s_chk(int *restrict retvalp, char *restrict dest,
     mbstate_t st;
 #endif
 
-    CHK_SRC_NULL("wctomb_s", retvalp)
+    CHK_ARG_NULL_TERM("wctomb_s", retvalp, RSIZE_MAX_STR, char)
     /* GLIBC asserts with len=0 and wrong state. darwin and musl is fine. */
     if (dest) {
         CHK_DMAX_ZERO("wctomb_s")
